@@ -4,9 +4,9 @@ CONSTANTS
   Wallet = {"w1"}
   Amt = {1}
   InitBal = 2
-  MaxH = 3
+  MaxH = 4
   MaxTx = 1
-  MaxCoins = 2
+  MaxCoins = 3
 INVARIANTS Conservation NoNegative SpentOnce SpentMarked
 ACTION_CONSTRAINT Edge
 VIEW View
